@@ -253,6 +253,14 @@ class CoDomain(Domain):
         t = ev.sym.text
         if t == f'heapq.heappop({WQ}).generator' or (
                 t.endswith('.generator') and 'heappop' in t and WQ in t):
+            fo_ = st.data['focus']
+            if fo_ is not None and t in st.data['aliases'] and fo_.get(
+                    '_muts0') == st.data['muts'] and fo_.get('_loop') \
+                    == 'wake loop':
+                # the value just drawn is handed on (returned by the helper
+                # that popped it and bound again by the caller): the same
+                # coroutine, not a new draw
+                return [(None, st)]
             if st.data['focus'] is not None:
                 # a loop written `while True: gen = ...; if ..: break`: the
                 # next binding ends the previous iteration
